@@ -1,3 +1,442 @@
-/-! # C01 — end-to-end message fidelity (composition theorem; under construction) -/
+import H3.Lemmas.E2ECompose
+import H3.Props.C12
+import H3.Props.C14
+/-! # C01 — end-to-end message fidelity (composition theorem)
+
+Property theorems only.  Glue: `H3.E2E` (`Model/E2E.lean`) — `Message`, `wire`, `sendAll`,
+`recvPattern`, `deliver` — composing the component models `H3.Headers` (C12), `H3.Qpack` (C10/C11),
+`H3.WriteBuf`/`H3.SendSide` (C14), `H3.FS` (C02) and `H3.ReqRecv` (C03).  What is composed:
+
+* C14 (`polls_spec` = `C14_writebuf_is_header_then_payload` per poll, `C14_frame_header_valid`):
+  header ++ payload, each byte once, under every acceptance script;
+* C02 (`C02_frame_decode_is_segment`, the invariant `Inv` with `pollNextLoop_spec`/`pollData_spec`
+  behind `C02_chunking_independent`): frames and payload bytes are a function of the bytes;
+* C03: the request layer of `H3.ReqRecv`; the lifting to chunks is NOT taken from
+  `C03_lifted_to_chunks` (conditional on `FrameSim`, and a `FrameSim` with the token source cannot
+  hold for scripts with `pend`): `recvPattern_valid` proves the chunk-level statement of
+  `C03_valid_message_delivered` directly from the C02 invariant, for every script, every call
+  awaited;
+* C10/C11 (`C10_own_encoding_exact_closed`, `C11_encode_then_rfc_decode_closed`): h3's decoder reads
+  h3's encoding back as the same field list iff the size fits the limit;
+* C12 (`C12_sent_order`, `wireFields_eq`): wire fields = pseudo list ++ map iteration; the
+  completeness direction (own wire fields are accepted, with the same parts) is proved here
+  (`recvRequest_sent`, `recvResponse_sent`, `recvTrailers_sent`).
+
+Assumptions that stay (each explicit in the statements): the `http` crate parameter `H` with the
+round-trip facts `PseudoBack` (and `HttpRoundTrip` for "same scheme/authority/path"); R-14 (calls
+awaited: `Awaited`); R-T (transport chunks non-empty, a delivery that arrives after a poll shows as
+`pend` in the script); the receiver's `max_field_section_size` (C10) and — a limit of the code, see
+`C01_field_count_refused` — at most 24576 fields per section. -/
 namespace H3.Props.C01
+open H3.E2E H3.Headers H3.FS H3.ReqRecv H3.WriteBuf H3.SendSide H3.Gen.WriteBuf
+open H3.Spec.Framing (observe Ending)
+
+
+/-! ## 1. what the sender puts on the stream -/
+
+/-- **`wire_of_send`.**  For every well-formed message, whether or not this handle owes the
+    connection's grease frame (`g`, draw `gN`), and for EVERY family of write-acceptance scripts —
+    partial writes of any size, `Pending` (0) anywhere — under which each call completes before the
+    next is made (R-14): after `send_request`/`send_response`, one `send_data` per piece,
+    `send_trailers` if any, and `finish()`, the transport of the request stream has been handed
+    exactly `wire m` (then the grease frame if owed), and the stream is finished.  `wire m` is a
+    function of the message and the piece boundaries only.  The block of each HEADERS frame is what
+    the send site writes when the section fits the peer's limit (C10 `sendSite`). -/
+theorem C01_wire_of_send (m : Message) (h : Header) (hwf : WellFormed m h) (g : Bool) (gN : Nat)
+    (hg : gN < GREASE_RANGE_END) (scripts : List (List Nat))
+    (haw : Awaited (freshStream g) (callsOf (framesOf m h) gN scripts)) (applied : Option Nat)
+    (hlim : sectionSize h.wireFields ≤ Qpack.peerLimit applied) :
+    (sendAll (freshStream g) (callsOf (framesOf m h) gN scripts)).log =
+      streamBytes m (if g then some gN else none) ∧
+    (sendAll (freshStream g) (callsOf (framesOf m h) gN scripts)).fin = true ∧
+    (sendAll (freshStream g) (callsOf (framesOf m h) gN scripts)).cur = none ∧
+    Qpack.sendSite applied (qfields h.wireFields) = .written (fieldSection h) := by
+  obtain ⟨a, b, c⟩ := sendAll_message (framesOf m h) (frames_sendable m h hwf) g gN hg scripts haw
+  refine ⟨?_, b, c, ?_⟩
+  · rw [a, streamBytes, wire_eq m h hwf.header]
+  · have hfs : ∀ f ∈ qfields h.wireFields, H3.Qpack.Lemmas.Encodable f := by
+      intro f hf
+      simp only [qfields, List.mem_map] at hf
+      obtain ⟨x, hx, rfl⟩ := hf
+      exact hwf.encodable x hx
+    obtain ⟨h1, _⟩ := H3.Props.C11.C11_encode_then_rfc_decode_closed _ hfs
+    have h2 := (H3.Props.C11.C10_own_encoding_exact_closed _ hfs 0).1
+    unfold Qpack.sendSite
+    rw [h1]
+    simp only
+    rw [h2, if_neg (by unfold sectionSize at hlim; omega)]
+    rfl
+
+/-! ## 2. the wire is a valid message -/
+
+/-- what the RFC 9114 §7.1 oracle must see of a body: per piece a DATA frame and, unless it is
+    empty, its payload -/
+def bodyObs : List (List Nat) → List Spec.Framing.Tok
+  | [] => []
+  | p :: r =>
+    if p = [] then .frame (.data 0) :: bodyObs r else .frame (.data p.length) :: .data p :: bodyObs r
+
+/-- **`wire_is_valid_message`.**  The stream bytes of a well-formed message (with or without the
+    trailing grease frame), read by the RFC 9114 §7.1/§7.2 oracle `observe` and ended by FIN, are
+    exactly: a HEADERS frame whose payload is the field section of head + fields, one DATA frame per
+    piece with that piece as payload, the trailing HEADERS frame iff trailers were sent, and a clean
+    end (`none_`) — nothing else, nothing truncated.  The field sections read back under the RFC
+    9204 decoder as the field list the `Header` iterates, which is the pseudo-header fields followed
+    by the map in iteration order (C11, C12). -/
+theorem C01_wire_is_valid_message (m : Message) (h : Header) (hwf : WellFormed m h) (g : Option Nat)
+    (hg : ∀ n, g = some n → n < GREASE_RANGE_END) :
+    observe ((streamBytes m g).length + 1) (streamBytes m g) .fin =
+      .frame (.headers (fieldSection h)) ::
+        (bodyObs m.pieces ++
+          (match m.trailers with
+           | none => []
+           | some t => [.frame (.headers (trailerSection t))]) ++ [.none_]) ∧
+    Spec.Qpack.specDecode (fieldSection h) = .ok (H3.Qpack.Lemmas.pairs (qfields h.wireFields)) ∧
+    h.wireFields = H3.Headers.pseudoList h.pseudo ++ hmIter h.fields ∧
+    (∀ t, m.trailers = some t →
+      Spec.Qpack.specDecode (trailerSection t) =
+        .ok (H3.Qpack.Lemmas.pairs (qfields (hmIter (mapOf t))))) := by
+  have hpl := all_plain m h hwf g hg
+  have hobs := observe_wireOf .fin _ hpl ((streamBytes m g).length + 1) (by
+    rw [streamBytes_eq m h hwf.header g]
+    have := wireOf_length_ge _ hpl
+    omega)
+  rw [← streamBytes_eq m h hwf.header g] at hobs
+  refine ⟨?_, ?_, (H3.Props.C12.C12_sent_order h).1, ?_⟩
+  · rw [hobs]
+    have hbody : ∀ (ps : List (List Nat)) (r : List SFrame), obsToks (ps.map .data ++ r) = bodyObs ps ++ obsToks r := by
+      intro ps r
+      induction ps with
+      | nil => rfl
+      | cons p ps ih =>
+        by_cases hp : p = [] <;> simp [obsToks, bodyObs, hp, ih]
+    have hgr : obsToks (greaseFrames g) = [] := by cases g <;> rfl
+    simp only [framesOf, List.cons_append, List.append_assoc, obsToks, hbody]
+    cases m.trailers with
+    | none => simp [hgr, Spec.Framing.endTok]
+    | some t => simp [obsToks, hgr, Spec.Framing.endTok]
+  · have hfs : ∀ f ∈ qfields h.wireFields, H3.Qpack.Lemmas.Encodable f := by
+      intro f hf
+      simp only [qfields, List.mem_map] at hf
+      obtain ⟨x, hx, rfl⟩ := hf
+      exact hwf.encodable x hx
+    exact (H3.Props.C11.C11_encode_then_rfc_decode_closed _ hfs).2.1
+  · intro t ht
+    have hfs : ∀ f ∈ qfields (Header.trailer (mapOf t)).wireFields, H3.Qpack.Lemmas.Encodable f := by
+      intro f hf
+      simp only [qfields, List.mem_map] at hf
+      obtain ⟨x, hx, rfl⟩ := hf
+      exact hwf.trailersEncodable t ht x hx
+    have := (H3.Props.C11.C11_encode_then_rfc_decode_closed _ hfs).2.1
+    rw [(H3.Props.C12.C12_sent_response_trailer_values 0 (mapOf t)).2] at this
+    unfold trailerSection fieldSection
+    rw [(H3.Props.C12.C12_sent_response_trailer_values 0 (mapOf t)).2]
+    exact this
+
+/-! ## 3. every chunking of the wire is delivered exactly -/
+
+/-  Full statement (not provable for the code as it is): as `C01_recv_of_wire_partial` without the
+    hypothesis `Fits.count` / `Fits.trailerCount`.  `C01_field_count_refused` below shows why it
+    fails: the receiver sizes its `HeaderMap` for the number of *all* fields of the section, pseudo
+    ones included, and refuses a section of more than 24576 fields — which a sender can build (a
+    `HeaderMap` holds any number of values under one name). -/
+
+/-- **`recv_of_wire`.**  Let `m` be a well-formed message whose head survives the trip
+    (`HeadOk`: the `http` round-trip assumptions, with `out` the head the application must get),
+    within the receiver's limits (`Fits`: `max_field_section_size = L`, field count).  For EVERY
+    transport script that carries exactly the stream bytes of `m` before its first FIN — cut into
+    non-empty chunks in any way, `pend` (a poll that found nothing) anywhere, no reset — the
+    documented receive pattern with every call awaited (`resolve_request` / `recv_response`;
+    `recv_data` until `None`; `recv_trailers`) delivers: the head `out`; as body exactly the
+    concatenation of the pieces sent; exactly one clean end of body (`ends = 1`, and it is the
+    last answer of `recv_data`); the trailers as the map the sender filled, or `None` when none
+    were sent; the error cell empty, nothing reset, nothing stopped. -/
+theorem C01_recv_of_wire_partial (H : Http) (role : Role) (m : Message) (h : Header) (out : HeadOut)
+    (L : Nat) (hwf : WellFormed m h) (hfit : Fits m h L) (hhead : HeadOk H role m out)
+    (g : Option Nat) (hg : ∀ n, g = some n → n < GREASE_RANGE_END)
+    (script : List Ev) (hsc : ScriptOK script) (hnr : NoReset script) (hfin : hasFin script = true)
+    (hbytes : evBytes (upToFin script) = streamBytes m g) :
+    deliver H role L script =
+      { head := some out, body := m.pieces.flatten, cleanEnd := true, ends := 1,
+        trailers := some (m.trailers.map mapOf), env := {} } :=
+  deliver_streamBytes H role m h out L hwf hfit hhead g hg script hsc hnr hfin hbytes
+
+/-- The limit behind `Fits.count` is the code's, not the proof's: a field section of more than
+    24576 fields is refused by `Header::try_from` (`InvalidRequest`, H3_MESSAGE_ERROR on the
+    stream) whatever it contains — also when it is a well-formed message that h3 itself sent.
+    (Shown on the real code: `hdr req` with the four request pseudo fields and `x=y*24573`
+    answers `reject InvalidRequest`, with `*24572` it is accepted.) -/
+theorem C01_field_count_refused (H : Http) (fs : List FieldLine) (h : 24576 < fs.length) :
+    recvRequest H fs = .err .invalidRequest ∧ recvResponse H fs = .err .invalidRequest ∧
+    recvTrailers H fs = .err .invalidRequest := by
+  have hc : capacityOverflow fs.length = true := by
+    simp only [capacityOverflow, decide_eq_true_eq]; omega
+  have hm : H3.Gen.Headers.mapFallible = true := rfl
+  simp [recvRequest, recvResponse, recvTrailers, tryFrom, hc, hm, Res.bind]
+
+/-- **Same method, scheme, authority and path; same values in the same per-name order.**  What
+    `HeadOk` hands over, spelled out.  Requests: the method is the sender's; under the round-trip
+    law `uri_parts` of the `http` crate the URI has the scheme the sender put in `:scheme` (the
+    URI's own, `https` when it has none; none for a plain CONNECT), the authority the sender put in
+    `:authority` (or `Host`), the path the sender put in `:path`; the `Protocol` is the sender's.
+    Responses: the status is the sender's.  In both directions the header map is the map the
+    application filled, and for every name its values are the submitted ones in the submitted
+    order (repeated names included); the same holds for the trailers. -/
+theorem C01_delivered_parts (H : Http) (R : HttpRoundTrip H) (role : Role) (m : Message) (out : HeadOut)
+    (hhead : HeadOk H role m out) :
+    (∀ p, out = .request p → ∃ method uri ext, m.head = .request method uri ext ∧
+      p.method = method ∧
+      p.uri.scheme = (Pseudo.request method uri ext).scheme ∧
+      p.uri.authority = some (effAuthority uri.authority (hmGet (mapOf m.headers) nHost)) ∧
+      p.uri.path = (Pseudo.request method uri ext).path ∧
+      p.protocol = (Pseudo.request method uri ext).protocol ∧ p.headers = mapOf m.headers) ∧
+    (∀ st hm, out = .response st hm → m.head = .response st ∧ hm = mapOf m.headers) ∧
+    (∀ n, (hmIter (mapOf m.headers)).filter (fun f => f.1 = n) = m.headers.filter (fun f => f.1 = n)) ∧
+    (∀ t n, m.trailers = some t →
+      (hmIter (mapOf t)).filter (fun f => f.1 = n) = t.filter (fun f => f.1 = n)) := by
+  refine ⟨?_, ?_, fun n => hmIter_mapOf_filter m.headers n, fun t n _ => hmIter_mapOf_filter t n⟩
+  · intro p hp
+    cases hhead with
+    | request m method uri ext u hm hpb hb =>
+      cases hp
+      have hu := R.uri_parts _ _ _ _ hb
+      refine ⟨method, uri, ext, hm, rfl, ?_, ?_, ?_, rfl, rfl⟩ <;> simp only [hu]
+    | response m status hm h1 h2 => cases hp
+  · intro st hmap hp
+    cases hhead with
+    | request m method uri ext u hm hpb hb => cases hp
+    | response m status hm h1 h2 => cases hp; exact ⟨hm, rfl⟩
+
+/-- the crate's own values satisfy `PseudoBack` for a request: from the round-trip laws, when the
+    URI parts are values the crate's parsers produced (`∃ w, parse w = some v`) -/
+theorem C01_pseudo_back_of_laws (H : Http) (L : HttpLaws H) (R : HttpRoundTrip H) (method : List Nat)
+    (uri : UriParts) (ext : Option (List Nat)) (hm : validMethod method = true)
+    (hs : ∀ s, (Pseudo.request method uri ext).scheme = some s → ∃ w, H.parseScheme w = some s)
+    (ha : ∀ a, uri.authority = some a → ∃ w, H.parseAuthority w = some a)
+    (hp : ∀ x, (Pseudo.request method uri ext).path = some x → ∃ w, H.parsePath w = some x)
+    (hx : ∀ x, (Pseudo.request method uri ext).protocol = some x → parseProtocol x = some x) :
+    PseudoBack H (Pseudo.request method uri ext) := by
+  refine ⟨?_, ?_, ?_, ?_, ?_, hx⟩
+  · intro v hv
+    have : (Pseudo.request method uri ext).method = some method := rfl
+    rw [this] at hv; cases hv; exact hm
+  · intro s h
+    obtain ⟨w, hw⟩ := hs s h
+    exact R.scheme_print_parse w s hw
+  · intro a h
+    obtain ⟨w, hw⟩ := ha a h
+    have := L.authority_as_str w a hw
+    rw [this] at hw ⊢
+    exact hw
+  · intro x h
+    obtain ⟨w, hw⟩ := hp x h
+    exact R.path_print_parse w x hw
+  · intro st h
+    have : (Pseudo.request method uri ext).status = none := rfl
+    rw [this] at h; cases h
+
+/-! ## 4. end to end -/
+
+/-- **`end_to_end`** (requests: `role = server`, the message head is a request; responses:
+    `role = client`, the head is a status — `HeadOk` ties the two).  The sender submits `m` through
+    awaited calls under ANY write-acceptance scripts; the transport carries what the sender's stream
+    was handed, cut into ANY non-empty chunks, with `pend` anywhere, then FIN; the receiver follows
+    the documented pattern.  Then the receiving application is handed the head `out` (same method,
+    scheme, authority, path / same status: `C01_delivered_parts`), the header values in the same
+    per-name order, the identical body byte sequence, the same trailers, and exactly one clean end;
+    no error is recorded on either side.  (`_partial`: at most 24576 fields per section, see
+    `C01_field_count_refused`.) -/
+theorem C01_end_to_end_partial (H : Http) (role : Role) (m : Message) (h : Header) (out : HeadOut)
+    (L : Nat) (hwf : WellFormed m h) (hfit : Fits m h L) (hhead : HeadOk H role m out)
+    (g : Bool) (gN : Nat) (hg : gN < GREASE_RANGE_END) (scripts : List (List Nat))
+    (haw : Awaited (freshStream g) (callsOf (framesOf m h) gN scripts))
+    (script : List Ev) (hsc : ScriptOK script) (hnr : NoReset script) (hfin : hasFin script = true)
+    (hbytes : evBytes (upToFin script) =
+      (sendAll (freshStream g) (callsOf (framesOf m h) gN scripts)).log) :
+    (sendAll (freshStream g) (callsOf (framesOf m h) gN scripts)).fin = true ∧
+    deliver H role L script =
+      { head := some out, body := m.pieces.flatten, cleanEnd := true, ends := 1,
+        trailers := some (m.trailers.map mapOf), env := {} } := by
+  obtain ⟨a, b, _⟩ := sendAll_message (framesOf m h) (frames_sendable m h hwf) g gN hg scripts haw
+  refine ⟨b, ?_⟩
+  have hb' : evBytes (upToFin script) = streamBytes m (if g then some gN else none) := by
+    rw [hbytes, a, streamBytes, wire_eq m h hwf.header]
+  refine deliver_streamBytes H role m h out L hwf hfit hhead _ ?_ script hsc hnr hfin hb'
+  intro n hn
+  cases g with
+  | false => simp at hn
+  | true => simp only [if_true, Option.some.injEq] at hn; subst hn; exact hg
+
+/-! ## 5. interleavings -/
+
+/-  Full statement of the design (`interleaving_irrelevant`): every interleaving of client task,
+    server task, drivers and deliveries is equivalent to a sequential one.  Proved below: what the
+    models support.  Not covered (hence `_partial`): the connection driver (control stream, GOAWAY:
+    C04/C08/C09 models) is not a component of the products used here — the cells it shares with
+    request streams are the error cell (covered: part (b)), the write-once peer settings (here the
+    parameters `L` / `applied`) and the closing flag (C08/C09); deliveries are part of a stream's
+    transport script (`pend` = a poll before the data arrived, R-T); real tokio/Quinn scheduling is
+    not modelled (granularity: one poll of one task or one transport event). -/
+
+/-- **`interleaving_irrelevant`.**
+    (a) Send side, the connection machine of C14 (`H3.SendSide.step`: API calls of any stream,
+    GOAWAY, grease stream, transport polls of any stream, in any order): the record — byte log,
+    buffer in flight, FIN — of request stream `sid` after ANY run is the result of the steps that
+    address `sid`, in their order; so two runs with the same steps for `sid` give it the same log,
+    whatever else is interleaved.
+    (b) Receive side, any number of request streams sharing the connection error cell: for ANY
+    schedule of polls of their calls, if each stream run alone answers no connection error, then in
+    the interleaved run each stream gets exactly the answers, and ends in exactly the state, of its
+    isolated run, and the cell is untouched; two polls of different streams commute.
+    (c) A split stream: a step of the send half and a poll of the receive half act on disjoint
+    components and commute. -/
+theorem C01_interleaving_irrelevant_partial :
+    (∀ (st : State) (steps : List Step) (sid : Nat) (s : Stream), sid % 4 = 0 →
+      getStream st.streams sid = some s →
+      getStream (run st steps).streams sid = some (runS s (steps.filterMap (proj sid)))) ∧
+    (∀ (st : State) (steps steps' : List Step) (sid : Nat) (s : Stream), sid % 4 = 0 →
+      getStream st.streams sid = some s → steps.filterMap (proj sid) = steps'.filterMap (proj sid) →
+      getStream (run st steps).streams sid = getStream (run st steps').streams sid) ∧
+    (∀ (H : Nat → Hdr) (σ : List (Nat × RCall)) (k : Conn),
+      (∀ i, ∀ a ∈ (isolated (H i) k.cell (k.comps i) (callsFor σ i)).1, isErrConn a = false) →
+      (∀ i, answersFor (Conn.run H k σ).1 i = (isolated (H i) k.cell (k.comps i) (callsFor σ i)).1 ∧
+        (Conn.run H k σ).2.comps i = (isolated (H i) k.cell (k.comps i) (callsFor σ i)).2.2) ∧
+      (Conn.run H k σ).2.cell = k.cell) ∧
+    (∀ (H : Nat → Hdr) (k : Conn) (i j : Nat), i ≠ j → ∀ (ci cj : RCall),
+      isErrConn (k.poll H i ci).1 = false → isErrConn (k.poll H j cj).1 = false →
+      ((k.poll H i ci).2.poll H j cj).1 = (k.poll H j cj).1 ∧
+      ((k.poll H j cj).2.poll H i ci).1 = (k.poll H i ci).1 ∧
+      ((k.poll H i ci).2.poll H j cj).2.cell = ((k.poll H j cj).2.poll H i ci).2.cell ∧
+      ∀ x, ((k.poll H i ci).2.poll H j cj).2.comps x = ((k.poll H j cj).2.poll H i ci).2.comps x) ∧
+    (∀ (H : Hdr) (cell : Option Nat) (h : Halves) (op : SOp) (call : RCall),
+      (Halves.recvPoll H cell (h.sendOp op) call).1 = (Halves.recvPoll H cell h call).1 ∧
+      (Halves.recvPoll H cell (h.sendOp op) call).2.1 = (Halves.recvPoll H cell h call).2.1 ∧
+      (Halves.recvPoll H cell (h.sendOp op) call).2.2 = ((Halves.recvPoll H cell h call).2.2).sendOp op) := by
+  refine ⟨fun st steps sid s hs h => getStream_run steps st sid s hs h, ?_,
+    fun H σ k hk => conn_run_projects H σ k hk,
+    fun H k i j hij ci cj hi hj => conn_polls_commute H k i j hij ci cj hi hj,
+    fun H cell h op call => halves_commute H cell h op call⟩
+  intro st steps steps' sid s hs h heq
+  rw [getStream_run steps st sid s hs h, getStream_run steps' st sid s hs h, heq]
+
+/-- (a) applied to a message: in ANY run of the sender's connection machine whose steps for
+    stream `sid` are the awaited calls of `m` with their transport polls — other streams' calls and
+    polls, GOAWAY, the grease stream interleaved at will — the stream's log is `wire m` (+ grease)
+    and it is finished. -/
+theorem C01_wire_of_send_in_any_run (m : Message) (h : Header) (hwf : WellFormed m h) (g : Bool)
+    (gN : Nat) (hg : gN < GREASE_RANGE_END) (scripts : List (List Nat))
+    (haw : Awaited (freshStream g) (callsOf (framesOf m h) gN scripts))
+    (st : State) (sid : Nat) (hsid : sid % 4 = 0)
+    (hfresh : getStream st.streams sid = some (freshStream g)) (steps : List Step)
+    (hproj : steps.filterMap (proj sid) = opsOf (callsOf (framesOf m h) gN scripts)) :
+    ∃ s, getStream (run st steps).streams sid = some s ∧
+      s.log = streamBytes m (if g then some gN else none) ∧ s.fin = true := by
+  obtain ⟨a, b, _⟩ := sendAll_message (framesOf m h) (frames_sendable m h hwf) g gN hg scripts haw
+  refine ⟨_, getStream_run steps st sid _ hsid hfresh, ?_, ?_⟩
+  · rw [hproj, ← sendAll_eq_runS, a, streamBytes, wire_eq m h hwf.header]
+  · rw [hproj, ← sendAll_eq_runS, b]
+
+/-! ## non-vacuity
+
+A request with a repeated header name, a body handed over in two pieces (and an empty `send_data`
+in between) and trailers; a response without body.  The `http` parameter is C12's `toy`. -/
+section examples
+open H3.Props.C12 (toy toy_laws GET aCom)
+
+/-- `GET https://a.com/`, `x: 1`, `y: 2`, `x: 3`; body `01 02 03` · (empty) · `04 05`; trailers `z: 9` -/
+def m₁ : Message :=
+  { head := .request GET ⟨some sHttps, some aCom, some slash⟩ none
+    headers := [([120], [49]), ([121], [50]), ([120], [51])]
+    pieces := [[1, 2, 3], [], [4, 5]]
+    trailers := some [([122], [57])] }
+
+def h₁ : Header :=
+  { pseudo := Pseudo.request GET ⟨some sHttps, some aCom, some slash⟩ none
+    fields := [([120], [[49], [51]]), ([121], [[50]])] }
+
+def out₁ : HeadOut :=
+  .request { method := GET, uri := { scheme := some sHttps, authority := some aCom, path := some slash },
+             protocol := none, headers := [([120], [[49], [51]]), ([121], [[50]])] }
+
+def want₁ : Delivered :=
+  { head := some out₁, body := [1, 2, 3, 4, 5], cleanEnd := true, ends := 1,
+    trailers := some (some [([122], [[57]])]), env := {} }
+
+/-- HEADERS(23 octets: `00 00`, `:method GET`, `:scheme https` static-indexed, three literals with
+    static/literal names), DATA(3), DATA(0), DATA(2), HEADERS(6 octets) -/
+example : wire m₁ =
+    [1, 23, 0, 0, 209, 215, 80, 132, 26, 228, 61, 63, 193, 41, 243, 129, 15, 41, 243, 129, 103, 41, 245,
+     129, 23, 0, 3, 1, 2, 3, 0, 0, 0, 2, 4, 5, 1, 6, 0, 0, 41, 247, 129, 127] := by decide +kernel
+
+/-- one byte per chunk -/
+example : deliver toy .server 1000 (chunked 1 (wire m₁)) = want₁ := by decide +kernel
+/-- chunks cutting the HEADERS frame header, the field section, a DATA header and a payload; polls
+    that find nothing before, between and after them -/
+example : deliver toy .server 1000
+    [.pend, .chunk ((wire m₁).take 1), .pend, .pend, .chunk (((wire m₁).drop 1).take 10),
+     .chunk (((wire m₁).drop 11).take 17), .pend, .chunk ((wire m₁).drop 28), .pend, .fin] = want₁ := by
+  decide +kernel
+/-- the handle owed the grease frame (draw 5: type `0x40bc`): it follows the trailers and is skipped -/
+example : deliver toy .server 1000 (chunked 7 (streamBytes m₁ (some 5))) = want₁ := by decide +kernel
+/-- the receiver's limit is exact (C10): the head section has size 7·32 + 49 = 273; with a limit one
+    less the request is refused and nothing is delivered (`classifyBlock` files `HeaderTooLong`
+    under the stream-level refusals; its exact codes are C10's `recvSite`) -/
+example : (deliver toy .server 272 (chunked 7 (wire m₁))).head = none ∧
+    (deliver toy .server 272 (chunked 7 (wire m₁))).body = [] ∧
+    (deliver toy .server 273 (chunked 7 (wire m₁))).head = some out₁ := by decide +kernel
+
+/-- a response: 204 with one field, no body, no trailers -/
+def m₂ : Message := { head := .response 204, headers := [([120], [49])], pieces := [], trailers := none }
+
+example : deliver toy .client 1000 (chunked 2 (wire m₂)) =
+    { head := some (.response 204 [([120], [[49]])]), body := [], cleanEnd := true, ends := 1,
+      trailers := some none, env := {} } := by decide +kernel
+
+/-- the sender: HEADERS trickles out one byte at a time with `Pending` in between, the rest in
+    bigger bites; the log is `wire m₁` and the stream is finished -/
+example : (sendAll (freshStream false) (callsOf (framesOf m₁ h₁) 0
+      [[1, 0, 1, 0, 0, 2, 3, 100], [5, 5], [0, 2], [1, 1, 1, 1], [3, 3, 3], []])).log = wire m₁ ∧
+    (sendAll (freshStream false) (callsOf (framesOf m₁ h₁) 0
+      [[1, 0, 1, 0, 0, 2, 3, 100], [5, 5], [0, 2], [1, 1, 1, 1], [3, 3, 3], []])).fin = true := by
+  decide +kernel
+
+instance (f : FieldLine) : Decidable (RegularOk f) := by unfold RegularOk; infer_instance
+instance (f : Qpack.Field) : Decidable (H3.Qpack.Lemmas.Encodable f) := by
+  unfold H3.Qpack.Lemmas.Encodable; infer_instance
+instance (l : List FieldLine) : Decidable (FieldsEncodable l) := by unfold FieldsEncodable; infer_instance
+
+/-- the hypotheses of the theorems are satisfiable: `m₁` is well-formed, fits, its head survives -/
+theorem wf₁ : WellFormed m₁ h₁ where
+  header := by decide +kernel
+  regular := by decide +kernel
+  trailersRegular := by intro t ht; cases ht; decide +kernel
+  encodable := by decide +kernel
+  trailersEncodable := by intro t ht; cases ht; decide +kernel
+  pieces := by
+    intro p hp
+    simp only [m₁, List.mem_cons, List.mem_nil_iff, or_false] at hp
+    rcases hp with rfl | rfl | rfl <;> exact ⟨by decide, by intro b hb; revert b; decide⟩
+  blockLen := by decide +kernel
+  trailerLen := by intro t ht; cases ht; decide +kernel
+
+theorem fits₁ : Fits m₁ h₁ 273 where
+  size := by decide +kernel
+  trailerSize := by intro t ht; cases ht; decide +kernel
+  count := by decide +kernel
+  trailerCount := by intro t ht; cases ht; decide +kernel
+
+theorem headOk₁ : HeadOk toy .server m₁ out₁ := by
+  refine HeadOk.request m₁ GET ⟨some sHttps, some aCom, some slash⟩ none _ rfl ?_ (by decide)
+  exact ⟨(by intro m h; cases h; decide), (by intro s h; cases h; decide),
+    (by intro a h; cases h; decide), (by intro x h; cases h; decide), (by intro st h; cases h),
+    (by intro x h; cases h)⟩
+
+/-- the theorem applied: every script carrying `wire m₁` — here 5-byte chunks — delivers `want₁` -/
+example : deliver toy .server 273 (chunked 5 (wire m₁)) = want₁ := by
+  obtain ⟨a, b, c, d⟩ := chunked_spec 5 (wire m₁)
+  exact C01_recv_of_wire_partial toy .server m₁ h₁ out₁ 273 wf₁ fits₁ headOk₁ none (by intro n h; cases h)
+    _ a b c (by rw [d]; simp [streamBytes, greaseBytes])
+
+end examples
+
 end H3.Props.C01
